@@ -13,7 +13,8 @@ sys.path.insert(0, os.path.join(C.VERIF, "xh"))
 
 STUBS = [
     "engine: run_function_on_graph replaced by a sequential stand-in satisfying the engine contract E2 establishes (C01/C04/C06/C07); W=1",
-    "stores: in-memory LStore with a logical clock (write => strictly larger time); duck-typed datetimes carrying ints",
+    "stores: in-memory LStore with a logical clock (write => strictly larger time); duck-typed datetimes carrying ints; "
+    "the *_falsy_store conditions use a store class that defines __len__ (falsy while it holds no value)",
     "networkx runs untraced (concrete graphs only); CrossHair 0.0.110 + z3 decide each path",
     "pre-state times and fresh_time pairwise distinct and earlier than 'now' (the property's own assumptions)",
     "plan sizes: the listed shapes (<= 4 logical nodes); larger plans are outside the claim",
@@ -54,9 +55,18 @@ print(best)
     return int(out.stdout.strip().splitlines()[-1])
 
 
+def falsy_shapes(tier):
+    """Shapes also run with stores whose truth value is False while they hold nothing (XH_FALSY=1, xh/world.py)."""
+    import shapes
+
+    return [shapes.BY_NAME[n] for n in (("chain_sss", "chain_src_s_u_s") if tier == "quick" else [s.name for s in shapes.QUICK])]
+
+
 def conds_c05(tier):
     return [xhrun.Cond("harness_cache", "c05_events", {"XH_SHAPE": json.dumps(s.to_json())}, timeout=240,
-                       label=f"c05_events_{s.name}") for s in shapes_for(tier)]
+                       label=f"c05_events_{s.name}") for s in shapes_for(tier)] + \
+           [xhrun.Cond("harness_cache", "c05_events", {"XH_SHAPE": json.dumps(s.to_json()), "XH_FALSY": 1}, timeout=240,
+                       label=f"c05_events_{s.name}_falsy_store") for s in falsy_shapes(tier)]
 
 
 def conds_c03(tier):
@@ -65,6 +75,8 @@ def conds_c03(tier):
     if tier == "thorough":
         cs += [xhrun.Cond("harness_cache", "c03_step", {"XH_SHAPE": json.dumps(s.to_json()), "XH_ORDER": "fifo"},
                           timeout=240, label=f"c03_step_{s.name}_fifo") for s in shapes_for(tier)]
+    cs += [xhrun.Cond("harness_cache", "c03_step", {"XH_SHAPE": json.dumps(s.to_json()), "XH_FALSY": 1}, timeout=240,
+                      label=f"c03_step_{s.name}_falsy_store") for s in falsy_shapes(tier)]
     cs += ordering_lemma()
     return cs
 
